@@ -706,6 +706,109 @@ func runC18(c *Ctx) {
 		}
 	}
 
+	// R9 a scripted drop or reorder claims the write before the filter is asked
+	{
+		o9 := c.Obl("R9", fname(push), "DropNextNWrites / ReorderNextNWrites count every write: the filter callback is consulted only on paths that have found both pending counters of the direction not positive (a write the filter would refuse still uses up its slot of the script)", 1)
+		paths, okP := enumIterPathsU(push, 50000)
+		if !okP {
+			o9.Undecide("the paths of Push could not be enumerated")
+		}
+		// the cell a value was loaded from, as seen on the path: a field of the Bridge, possibly indexed, possibly
+		// reached through a pointer handed to a per-direction helper
+		cellOf := func(pt *upath, v ssa.Value, idx int) string {
+			u, ok := pt.valueAt(v, idx).(*ssa.UnOp)
+			if !ok || u.Op != token.MUL {
+				return ""
+			}
+			a := pt.valueAt(u.X, idx)
+			suffix := ""
+			if ia, ok := a.(*ssa.IndexAddr); ok {
+				a, suffix = pt.valueAt(ia.X, idx), "[]"
+			}
+			if fr, ok := asFieldAddr(a); ok && fr.SName == "test.Bridge" {
+				return fr.Field + suffix
+			}
+			return ""
+		}
+		counters := map[string]bool{}
+		for pi := range paths {
+			pt := &paths[pi]
+			for idx, in := range pt.Instrs {
+				st, ok := in.(*ssa.Store)
+				if !ok {
+					continue
+				}
+				b, ok := pt.valueAt(st.Val, idx).(*ssa.BinOp)
+				if !ok || b.Op != token.SUB {
+					continue
+				}
+				if k, isC := constInt(b.Y); !isC || k != 1 {
+					continue
+				}
+				a := pt.valueAt(st.Addr, idx)
+				suffix := ""
+				if ia, ok := a.(*ssa.IndexAddr); ok {
+					a, suffix = pt.valueAt(ia.X, idx), "[]"
+				}
+				if fr, ok := asFieldAddr(a); ok && fr.SName == "test.Bridge" && cellOf(pt, b.X, idx) == fr.Field+suffix {
+					counters[fr.Field+suffix] = true
+				}
+			}
+		}
+		nCalls := 0
+		failed := map[ssa.Instruction]bool{}
+		sited := map[ssa.Instruction]bool{}
+		for pi := range paths {
+			pt := &paths[pi]
+			ci := 0
+			found := map[string]int{}
+			for idx, in := range pt.Instrs {
+				if _, isIf := in.(*ssa.If); isIf {
+					if ci < len(pt.Conds) {
+						ft := pt.Conds[ci]
+						if cm, ok := normCmp(ft.Cond, ft.Val); ok {
+							if k, isC := constInt(cm.Y); isC && ((cm.Op == token.LEQ && k == 0) || (cm.Op == token.LSS && k == 1) || (cm.Op == token.EQL && k == 0)) {
+								if cell := cellOf(pt, cm.X, idx); cell != "" && counters[cell] {
+									found[cell]++
+								}
+							}
+						}
+					}
+					ci++
+					continue
+				}
+				call, ok := in.(*ssa.Call)
+				if !ok || call.Call.IsInvoke() || call.Call.StaticCallee() != nil {
+					continue
+				}
+				fr, ok := asFieldLoad(pt.valueAt(call.Call.Value, idx))
+				if !ok || fr.SName != "test.Bridge" {
+					continue
+				}
+				if _, isFn := call.Call.Value.Type().Underlying().(*types.Signature); !isFn {
+					continue
+				}
+				nCalls++
+				if !sited[in] {
+					sited[in] = true
+					o9.Site(in.Pos(), "filter callback consulted")
+				}
+				n := 0
+				for _, k := range found {
+					n += k
+				}
+				// two pending counters per direction: both found exhausted (an indexed pair counts per test)
+				if (len(found) < 2 && n < 2) && !failed[in] {
+					failed[in] = true
+					o9.Fail(in.Pos(), "the filter is consulted on a path that has not found the pending drop and reorder counters exhausted: a refused write does not use up its slot and the script shifts onto later writes")
+				}
+			}
+		}
+		if nCalls == 0 && okP {
+			o9.Undecide("no call of a filter callback found in Push")
+		}
+	}
+
 	// R6 flush empties the holding area
 	o = c.Obl("R6", fname(push), "when a reorder burst completes the stack is appended to the queue (queue = append(queue, stack...)) and then reset to nil before the lock is released: no aliasing, no second delivery", 2)
 	for _, dir := range []struct{ q, s string }{{"queue0to1", "stack0"}, {"queue1to0", "stack1"}} {
